@@ -87,22 +87,23 @@ P_C06_NewEntry(e) ==
 
 \* C14: what a command may touch
 ReadOnlyOps == {"verify", "verifysf", "verifydh", "verifypl", "diff", "info", "infosf", "hash", "xsdcheck"}
-DeltaOK(e, W, d) ==
+\* W: the histories that gained a generation; S: the histories the command is entitled to write into (InScope)
+DeltaOK(e, W, S, d) ==
   \/ d.p.area = "hist" /\ d.p.h \in W /\
        \/ d.k = "created" /\ d.p.rest = ""                         \* a new ascmhl folder
-       \/ d.k = "meta" /\ d.p.rest = ""                            \* its mtime
        \/ d.k = "created" /\ d.p.rest \notin {"", "ascmhl_chain.xml"} \* the new manifest
        \/ d.k \in {"created", "content"} /\ d.p.rest = "ascmhl_chain.xml"
+  \/ d.p.area = "hist" /\ d.p.h \in W \cup S /\ d.k = "meta" /\ d.p.rest = ""   \* mtime of an ascmhl folder in scope (also when the run failed)
   \/ d.p.area = "media" /\ d.k = "meta" /\ d.p.h \in W /\          \* directory that received a new ascmhl folder
        \E x \in SeqSet(e.delta) : x.p.area = "hist" /\ x.p.h = d.p.h /\ x.k = "created" /\ x.p.rest = ""
-WriteOK(e, W, d) ==
-  d.p.area = "hist" /\ d.p.h \in W /\ d.k \in {"open-w", "os.mkdir", "os.rename", "os.remove"}
-P_C14_Frame(e, pre, post) ==
+WriteOK(e, W, S, d) ==
+  d.p.area = "hist" /\ d.p.h \in W \cup S /\ d.k \in {"open-w", "os.mkdir", "os.rename", "os.remove", "os.rmdir"}
+P_C14_Frame(e, pre, post, S) ==
   IF e.op.op \in ReadOnlyOps THEN e.delta = <<>> /\ e.writes = <<>>
   ELSE IF e.op.op \in {"create", "createsf"}
        THEN LET W == Wrote(pre, post) IN
-            /\ \A i \in DOMAIN e.delta : DeltaOK(e, W, e.delta[i])
-            /\ \A i \in DOMAIN e.writes : WriteOK(e, W, e.writes[i])
+            /\ \A i \in DOMAIN e.delta : DeltaOK(e, W, S, e.delta[i])
+            /\ \A i \in DOMAIN e.writes : WriteOK(e, W, S, e.writes[i])
             /\ \A h \in W : Cardinality({i \in DOMAIN e.delta : e.delta[i].p.area = "hist" /\ e.delta[i].p.h = h
                                           /\ e.delta[i].k = "created" /\ e.delta[i].p.rest \notin {"", "ascmhl_chain.xml"}}) = 1
        ELSE IF e.op.op = "flatten"
@@ -227,7 +228,7 @@ Verdict(e) ==
                P_C06_Numbered |-> P_C06_Numbered(pre, post),
                P_C06_Bytes |-> P_C06_Bytes(e),
                P_C06_NewEntry |-> P_C06_NewEntry(e),
-               P_C14_Frame |-> P_C14_Frame(e, pre, post),
+               P_C14_Frame |-> P_C14_Frame(e, pre, post, IF o.op \in {"create", "createsf"} THEN InScope(pre, dk, o, ign) ELSE {}),
                P_C14_Scope |-> P_C14_Scope(pre, post, dk, o, ign),
                P_C14_DiskSame |-> e.pre.disk = e.post.disk,
                P_C11_Valid |-> P_C11_Valid(e),
